@@ -573,7 +573,8 @@ def observe_expr(case):
 
 
 OBSERVERS = {"matrix": observe_matrix, "wrap": observe_wrap, "perm": observe_perm, "expr": observe_expr,
-             "life": lambda case: observe_life(case)}
+             "life": lambda case: observe_life(case), "xsess": lambda case: observe_xsess(case),
+             "pbs": lambda case: observe_pbs(case)}
 
 
 def observe(item):
@@ -1685,6 +1686,1058 @@ def life_sweep_cases():
 
 
 # ------------------------------------------------------------------------------------------------
+# xsess stream: Expression objects (full language, Expressions of Expressions, overrides) and the SYMBOLIC branch
+# of every leaf (Model/C14Expr.lean, Model/C14Sym.lean)
+# ------------------------------------------------------------------------------------------------
+# ASTs (extended): {"v": name} | {"c": q[, "f": 1]} | {"pi": 1} | {"op": add|sub|mul|div, "a", "b"} | {"op": "neg", "a"}
+# | {"op": "pow", "a", "n": non-zero int} | {"op": "fn", "f": sin|cos|exp|sqrt|acos, "a"}
+X_FUNS = ("sin", "cos", "exp", "sqrt", "acos")
+X_KINDS = [("BS", "Rx"), ("BS", "Ry"), ("BS", "H"), ("PS", None), ("WP", None), ("HWP", None), ("QWP", None),
+           ("PR", None)]
+X_SLOT_DEFAULT = {"theta": {"lit": {"op": "div", "a": {"pi": 1}, "b": {"c": "2"}}}}     # BS(theta=sp.pi/2)
+PI_RAT = core.rat(math.pi)
+HALF_PI = {"op": "div", "a": {"pi": 1}, "b": {"c": "2"}}
+
+
+def xast_vars(a):
+    if "v" in a:
+        return {a["v"]}
+    if "c" in a or "pi" in a:
+        return set()
+    out = xast_vars(a["a"])
+    if "b" in a:
+        out |= xast_vars(a["b"])
+    return out
+
+
+def xast_depth(a):
+    if "v" in a or "c" in a or "pi" in a:
+        return 0
+    return 1 + max(xast_depth(a["a"]), xast_depth(a["b"]) if "b" in a else 0)
+
+
+def xast_feats(a, out=None):
+    """which constructs of the language an AST uses"""
+    out = set() if out is None else out
+    if "pi" in a:
+        out.add("pi")
+    if "op" in a:
+        if a["op"] == "fn":
+            out.add("fn:" + a["f"])
+        elif a["op"] == "pow":
+            out.add("negpow" if a["n"] < 0 else "pow")
+        else:
+            out.add(a["op"])
+        xast_feats(a["a"], out)
+        if "b" in a:
+            xast_feats(a["b"], out)
+    return out
+
+
+def xast_text(a):
+    """the expression as text for `Expression(text, params)` (sympy syntax)"""
+    if "v" in a:
+        return a["v"]
+    if "pi" in a:
+        return "pi"
+    if "c" in a:
+        q = Fraction(a["c"])
+        if a.get("f"):
+            return repr(float(q)) if q >= 0 else f"({float(q)!r})"
+        if q.denominator == 1:
+            return str(q.numerator) if q >= 0 else f"({q.numerator})"
+        return f"({q.numerator}/{q.denominator})"
+    op = a["op"]
+    if op == "neg":
+        return f"(-{xast_text(a['a'])})"
+    if op == "pow":
+        return f"({xast_text(a['a'])})**({a['n']})"
+    if op == "fn":
+        return f"{a['f']}({xast_text(a['a'])})"
+    return f"({xast_text(a['a'])} {dict(add='+', sub='-', mul='*', div='/')[op]} {xast_text(a['b'])})"
+
+
+def xast_lean(a):
+    """the AST as the driver reads it (constants as exact rationals)"""
+    if "v" in a or "pi" in a:
+        return a
+    if "c" in a:
+        return {"c": a["c"]}
+    d = {"op": a["op"], "a": xast_lean(a["a"])}
+    if "b" in a:
+        d["b"] = xast_lean(a["b"])
+    if a["op"] == "pow":
+        d["n"] = a["n"]
+    if a["op"] == "fn":
+        d["f"] = a["f"]
+    return d
+
+
+def fn_value(f, x):
+    """math.<f>(x) for a float x; None when the result is not a (finite) real number"""
+    try:
+        if f == "sin":
+            r = math.sin(x)
+        elif f == "cos":
+            r = math.cos(x)
+        elif f == "exp":
+            r = math.exp(x)
+        elif f == "sqrt":
+            r = math.sqrt(x)
+        elif f == "acos":
+            r = math.acos(x)
+        else:
+            raise KeyError(f)
+    except (ValueError, OverflowError):
+        return None
+    return r if math.isfinite(r) else None
+
+
+def xeval_info(a, env):
+    """(value | None, |.|-scale, well_conditioned): float evaluation of an AST at `env` (name -> float | None).
+    value None = a sub-parameter has no value ("undef" in the 4th field) or the result is not a real number."""
+    if "v" in a:
+        v = env.get(a["v"])
+        return (None, 0.0, True, "undef") if v is None else (float(v), abs(float(v)), True, None)
+    if "pi" in a:
+        return math.pi, math.pi, True, None
+    if "c" in a:
+        q = float(Fraction(a["c"]))
+        return q, abs(q), True, None
+    x, sx, wx, ux = xeval_info(a["a"], env)
+    op = a["op"]
+    if "b" in a:
+        y, sy, wy, uy = xeval_info(a["b"], env)
+        und = ux or uy
+        if x is None or y is None:
+            return None, 0.0, wx and wy, und or "notreal"
+        well = wx and wy
+        if op == "add":
+            return x + y, sx + sy, well, None
+        if op == "sub":
+            return x - y, sx + sy, well, None
+        if op == "mul":
+            return x * y, sx * sy, well, None
+        if y == 0:
+            return None, 0.0, well and sy == 0, "notreal"
+        if abs(y) * 1000 < sy:
+            well = False
+        return x / y, sx / abs(y), well, None
+    if x is None:
+        return None, 0.0, wx, ux or "notreal"
+    if op == "neg":
+        return -x, sx, wx, None
+    if op == "pow":
+        n = a["n"]
+        if n >= 0:
+            try:
+                return x ** n, sx ** n, wx, None
+            except OverflowError:
+                return None, 0.0, False, "notreal"
+        if x == 0:
+            return None, 0.0, wx and sx == 0, "notreal"
+        well = wx and not (abs(x) * 1000 < sx)
+        try:
+            v = x ** n
+        except (OverflowError, ZeroDivisionError):
+            return None, 0.0, False, "notreal"
+        return v, abs(v) * (max(sx, abs(x)) / abs(x)) ** (-n), well, None
+    f = a["f"]
+    v = fn_value(f, x)
+    if f in ("sin", "cos"):
+        return v, max(1.0, sx), wx, None
+    if f == "exp":
+        if v is None or abs(x) > 300:
+            return None, 0.0, False, "notreal"
+        return v, abs(v) * (1 + sx), wx, None
+    if f == "sqrt":
+        edge = abs(x) < 1e-6 * max(1.0, sx)
+        if v is None:
+            return None, 0.0, wx and not edge, "notreal"
+        return v, v + sx / (2 * max(v, 1e-300)), wx and not edge, None
+    edge = abs(1 - abs(x)) < 1e-6 * max(1.0, sx)       # acos
+    if v is None:
+        return None, 0.0, wx and not edge, "notreal"
+    return v, math.pi + sx / max(math.sqrt(max(1 - x * x, 0.0)), 1e-300), wx and not edge, None
+
+
+def xsympy_name(ast):
+    """normalised `Expression` name of an AST, or None when sympy's automatic evaluation loses a symbol
+    (`Expression.__init__` refuses it) or the text does not parse to an expression"""
+    import sympy as sp
+    try:
+        e = sp.S(xast_text(ast))
+        if not isinstance(e, sp.Expr) or {s.name for s in e.free_symbols} != xast_vars(ast):
+            return None
+        return f"({e})"
+    except Exception:  # noqa: BLE001
+        return None
+
+
+def xast_subnodes(a):
+    if "op" in a:
+        yield a
+        yield from xast_subnodes(a["a"])
+        if "b" in a:
+            yield from xast_subnodes(a["b"])
+
+
+def xobj_ast(case, oid):
+    return next(o["ast"] for o in case["ops"] if o["k"] == "xnew" and o["id"] == oid)
+
+
+def xslot_ref(op, slot):
+    """what a slot of a `mk` holds: {"num": v} | {"ref": name} | {"ex": id} | {"default": 1}"""
+    if slot in op["args"]:
+        return op["args"][slot]
+    return {"default": 1} if slot == "theta" else {"num": 0}
+
+
+def x_operand(spec, P, objs):
+    kind, val = spec
+    if kind == "obj":
+        return objs[val]
+    if kind == "par":
+        return P[val]
+    return const_py(val)
+
+
+def observe_xsess(case):
+    """run the history on the real classes; after every op: exception class, every raw parameter, every Expression
+    object, and per component the slot reads, numeric matrix, symbolic matrix (evaluated at the current values)"""
+    import perceval as pcvl
+    from perceval.components import BS
+    P, objs, comps, kinds = {}, {}, {}, {}
+    out = {"out": [], "steps": [], "ident": {}}
+
+    def pinfo(p):
+        return [p.min, p.max, bool(p._periodic), p._symbol is not None, (float(p._value) if p._value is not None else None)]
+
+    def num(x):
+        try:
+            r = float(x)
+            return r if math.isfinite(r) else "err:nonfinite"
+        except Exception as e:  # noqa: BLE001
+            return "err:" + type(e).__name__
+
+    def snap():
+        cur = {n: float(p._value) for n, p in P.items() if p._value is not None}
+        s = {"params": {n: pinfo(p) for n, p in P.items()},
+             "objs": {i: pinfo(o) + [bool(o.defined)] for i, o in objs.items()}, "comps": {}}
+        for cid, c in comps.items():
+            kind = kinds[cid][0]
+            d = {"reads": [num(c.param(sl)) for sl, _, _ in SLOTS[kind]], "defined": bool(c.defined)}
+            try:
+                M = c.compute_unitary(use_symbolic=False)
+                d["num"] = cmat(np.array(M, dtype=complex).tolist())
+                if not finite_mat(d["num"]):
+                    d["num"] = "err:nonfinite"
+            except Exception as e:  # noqa: BLE001
+                d["num"] = "err:" + type(e).__name__
+            try:
+                M = c.compute_unitary(use_symbolic=True)
+                import sympy as sp
+                Ms = sp.Matrix(M) if not isinstance(M, np.ndarray) else None
+                d["free"] = sorted({s_.name for s_ in Ms.free_symbols}) if Ms is not None else []
+                if all(n in cur for n in d["free"]):
+                    d["sym"] = sym_np(M, cur)
+                    if not finite_mat(d["sym"]):
+                        d["sym"] = "err:nonfinite"
+                else:
+                    d["sym"] = "symbolic"
+            except Exception as e:  # noqa: BLE001
+                d["sym"] = "err:" + type(e).__name__
+            s["comps"][cid] = d
+        return s
+
+    for op in case["ops"]:
+        k = op["k"]
+        res = None
+        try:
+            if k == "new":
+                P[op["x"]] = pcvl.P(op["x"], op["val"], op["lo"], op["hi"], op["periodic"])
+            elif k == "set":
+                P[op["x"]].set_value(op["v"])
+            elif k == "fix":
+                P[op["x"]].fix_value(op["v"])
+            elif k == "reset":
+                P[op["x"]].reset()
+            elif k == "xnew":
+                how = op["how"]
+                if how == "text":
+                    o = pcvl.Expression(xast_text(op["ast"]), {P[n] for n in sorted(xast_vars(op["ast"]))})
+                elif how == "ops":
+                    o = build_expr(op["ast"], P, {})
+                elif how == "rtheta":
+                    o = BS.r_to_theta(P[op["r"]])
+                else:       # compose: a Python operator applied to existing objects
+                    c = op["compose"]
+                    x = x_operand(c["l"], P, objs)
+                    if c["op"] == "neg":
+                        o = -x
+                        out["ident"][op["id"]] = bool((-o) is x)
+                    elif c["op"] == "pow":
+                        o = x ** c["n"]
+                    else:
+                        y = x_operand(c["r"], P, objs)
+                        o = {"add": lambda: x + y, "sub": lambda: x - y, "mul": lambda: x * y,
+                             "div": lambda: x / y}[c["op"]]()
+                if not isinstance(o, pcvl.Expression):
+                    raise TypeError("not an Expression object")
+                objs[op["id"]] = o
+            elif k == "xset":
+                if op.get("via"):
+                    comps[op["via"]].assign({objs[op["id"]].name: op["v"]})
+                else:
+                    objs[op["id"]].set_value(op["v"])
+            elif k == "xfix":
+                objs[op["id"]].fix_value(op["v"])
+            elif k == "xreset":
+                objs[op["id"]].reset()
+            elif k == "mk":
+                args = {}
+                for slot, _, _ in SLOTS[op["kind"]]:
+                    a = xslot_ref(op, slot)
+                    if "num" in a and slot in op["args"]:
+                        args[slot] = a["num"]
+                    elif "ref" in a:
+                        args[slot] = P[a["ref"]]
+                    elif "ex" in a:
+                        args[slot] = objs[a["ex"]]
+                kinds[op["c"]] = (op["kind"], op.get("conv"))
+                comps[op["c"]] = build_component(op["kind"], op.get("conv"), args, op.get("how", "ctor"))
+            else:
+                raise KeyError(k)
+        except Exception as e:  # noqa: BLE001
+            res = type(e).__name__ + ("" if k != "xnew" else ":" + str(e)[:80])
+            if k == "mk":
+                comps.pop(op["c"], None)
+                kinds.pop(op["c"], None)
+        out["out"].append(res)
+        out["steps"].append(snap())
+    # the symbolic matrices as functions of their free symbols: evaluated at the points; `.U` at the first point
+    fin = {}
+    for cid, c in comps.items():
+        d = {"pts": []}
+        try:
+            M = c.compute_unitary(use_symbolic=True)
+            for pt in case["points"]:
+                try:
+                    m = sym_np(M, pt)
+                    d["pts"].append(m if finite_mat(m) else "err:nonfinite")
+                except Exception as e:  # noqa: BLE001
+                    d["pts"].append("err:" + type(e).__name__)
+            if case.get("deep") and case["points"]:
+                # (`.U` runs sympy's `simplify` on every entry, which can take minutes on a trigonometric function
+                # of a polynomial: bounded here, and a case that hits the bound is not compared)
+                import signal
+
+                def _alarm(signum, frame):
+                    raise TimeoutError
+                prev = signal.signal(signal.SIGALRM, _alarm)
+                signal.alarm(6)
+                try:
+                    m = sym_np(c.U, case["points"][0])
+                    d["U"] = m if finite_mat(m) else "err:nonfinite"
+                except TimeoutError:
+                    d["U"] = "skipped:timeout"
+                except Exception as e:  # noqa: BLE001
+                    d["U"] = "err:" + type(e).__name__
+                finally:
+                    signal.alarm(0)
+                    signal.signal(signal.SIGALRM, prev)
+        except Exception as e:  # noqa: BLE001
+            d["err"] = type(e).__name__
+        fin[cid] = d
+    out["final"] = fin
+    return out
+
+
+def observe_pbs(case):
+    from perceval.components import PBS
+    out = {}
+    try:
+        c = PBS()
+        out["num"] = cmat(np.array(c.compute_unitary(), dtype=complex).tolist())
+        out["sym"] = sym_np(c.compute_unitary(use_symbolic=True))
+        out["U"] = sym_np(c.U)
+        out["def"] = sym_np(c.definition())
+        out["m"] = int(c.m)
+        out["pol"] = bool(c.requires_polarization)
+    except Exception as e:  # noqa: BLE001
+        out["err"] = type(e).__name__ + ": " + str(e)[:150]
+    return out
+
+
+# -- the model's request ----------------------------------------------------------------------------
+def xsess_flatten(case):
+    """user ops -> model ops (`mk` = one `_set_parameter` per slot), index of the last model op of every user op
+    (None: no model op), and the components"""
+    mops, last, comps = [], [], []
+    r = lambda x: None if x is None else core.rat(x)  # noqa: E731
+    for op in case["ops"]:
+        k = op["k"]
+        if k == "new":
+            mops.append({"k": "new", "x": op["x"], "val": r(op["val"]), "lo": r(op["lo"]), "hi": r(op["hi"]),
+                         "periodic": bool(op["periodic"])})
+        elif k == "set":
+            mops.append({"k": "set", "x": op["x"], "v": r(op["v"]), "force": False})
+        elif k == "fix":
+            mops.append({"k": "fix", "x": op["x"], "v": r(op["v"])})
+        elif k == "reset":
+            mops.append({"k": "reset", "x": op["x"]})
+        elif k == "xnew":
+            mops.append({"k": "xnew", "id": op["id"], "e": xast_lean(op["ast"])})
+        elif k == "xset":
+            mops.append({"k": "xset", "id": op["id"], "v": r(op["v"]), "force": False})
+        elif k == "xfix":
+            mops.append({"k": "xfix", "id": op["id"], "v": r(op["v"])})
+        elif k == "xreset":
+            mops.append({"k": "xreset", "id": op["id"]})
+        elif k == "mk":
+            slots = []
+            for slot, lo, hi in SLOTS[op["kind"]]:
+                a = xslot_ref(op, slot)
+                if "default" in a:
+                    slots.append(X_SLOT_DEFAULT[slot])
+                elif "num" in a:
+                    key = f"{op['c']}.{slot}"
+                    mops.append({"k": "new", "x": key, "val": r(a["num"]), "lo": r(lo), "hi": r(hi), "periodic": True})
+                    slots.append({"par": key})
+                elif "ref" in a:
+                    mops.append({"k": "bind", "x": a["ref"], "lo": r(lo), "hi": r(hi)})
+                    slots.append({"par": a["ref"]})
+                else:
+                    mops.append({"k": "xbind", "id": a["ex"], "lo": r(lo), "hi": r(hi)})
+                    slots.append({"ex": a["ex"]})
+            comps.append({"c": op["c"], "kind": op["kind"], "conv": op.get("conv") or "", "from": len(mops) - 1,
+                          "slots": slots})
+        last.append(len(mops) - 1)
+    return mops, last, comps
+
+
+def xsess_lean_req(case, table):
+    mops, last, comps = xsess_flatten(case)
+    return {"op": "xsess", "pi": PI_RAT, "table": table, "ops": mops, "comps": comps, "symat": sorted(set(last)),
+            "points": [{n: core.rat(v) for n, v in pt.items()} for pt in case["points"]]}
+
+
+def xsess_ask(lean, cases):
+    """ask the model, supplying the values of math.sin/cos/exp/sqrt/acos it asks for until nothing is missing"""
+    tables = [[] for _ in cases]
+    reps = [None] * len(cases)
+    todo = list(range(len(cases)))
+    for _round in range(12):
+        if not todo:
+            break
+        got = lean.ask_many([xsess_lean_req(cases[i], tables[i]) for i in todo])
+        nxt = []
+        for i, rep in zip(todo, got):
+            reps[i] = rep
+            miss = rep.get("missing") or []
+            if "err" not in rep and miss:
+                for f, arg in miss:
+                    v = fn_value(f, float(Fraction(arg)))
+                    tables[i].append([f, arg, None if v is None else core.rat(v)])
+                nxt.append(i)
+        todo = nxt
+    for i in todo:
+        reps[i] = {"err": "function table did not converge"}
+    return reps
+
+
+# -- judging ------------------------------------------------------------------------------------------
+def x_num_eq(got, want, scale=1.0, tol=1e-9):
+    """real float against the model's exact rational string"""
+    w = float(Fraction(want))
+    return abs(got - w) <= tol * (1 + abs(w) + scale)
+
+
+def x_label(kind, conv):
+    return kind + ("." + conv if conv else "")
+
+
+def x_mat_kind(m):
+    return "matrix" if isinstance(m, list) else m
+
+
+def x_model_mat(rows):
+    """model rows (entries exact or null) -> complex matrix, or None when an entry is not a number"""
+    if rows is None or any(z is None for r in rows for z in r):
+        return None
+    return core.unmat(rows)
+
+
+def judge_xsess(case, obs, reps):
+    rep = reps[0]
+    if "err" in rep:
+        return [("broken", "lean-driver", f"xsess request rejected: {rep['err']}")]
+    fails = []
+    mops, last, mcomps = xsess_flatten(case)
+    comp_ops = {o["c"]: o for o in case["ops"] if o["k"] == "mk"}
+    asts = {o["id"]: o["ast"] for o in case["ops"] if o["k"] == "xnew"}
+    overridden = {}
+    requested = {}
+    for i, op in enumerate(case["ops"]):
+        k, res, snp = op["k"], obs["out"][i], obs["steps"][i]
+        when = f"op {i} {json.dumps({x: y for x, y in op.items() if x != 'ast'})[:160]}"
+        mi = last[i]
+        mout = rep["out"][mi] if mi >= 0 else None
+        msn = rep["steps"][mi] if mi >= 0 else {"params": {}, "objs": {}, "comps": {}}
+        res_cls = None if res is None else res.split(":")[0]
+        # ---- the call itself
+        if k == "mk":
+            if res is not None:
+                fails.append(("violation", "xsess-constructor-raises", f"{when}: {res}"))
+                return fails
+        elif k == "xnew":
+            if res is not None:
+                fails.append(("violation", "xsess-expression-rejected",
+                              f"{when}: building the Expression {xast_text(op['ast'])} raised {res}"))
+                return fails
+            if obs["ident"].get(op["id"]) is False:
+                fails.append(("violation", "xsess-double-negation", f"{when}: -(-e) is not the object e"))
+        elif res_cls != mout:
+            # the oracle on raw parameters is the life stream's business; here: model vs code
+            fails.append(("broken", f"xsess-model-vs-code:{k}", f"{when}: {res or 'no exception'}, model {mout or 'no exception'}"))
+            return fails
+        if k == "xset" and res is None and overridden.get(op["id"]) != "fixed":
+            overridden[op["id"]] = "set"
+        elif k == "xfix":
+            overridden[op["id"]] = "fixed"          # `_symbol` dropped (also by a rejected call): no expression any more
+        elif k == "xreset" and overridden.get(op["id"]) == "set":
+            overridden.pop(op["id"])
+        # ---- states: raw parameters, Expression objects (model vs code)
+        for n, g in snp["params"].items():
+            m = msn["params"].get(n)
+            f = "missing" if m is None else life_pinfo_diff(g, m)
+            if f:
+                fails.append(("broken", "xsess-model-vs-code:param", f"{when}: {f} of parameter {n} is {g}, model {m}"))
+                return fails
+        for oid, g in snp["objs"].items():
+            m = msn["objs"].get(oid)
+            f = "missing" if m is None else (life_pinfo_diff(g[:5], m[:5]) or (None if g[5] == m[5] else "defined"))
+            if f:
+                fails.append(("broken", "xsess-model-vs-code:object",
+                              f"{when}: {f} of Expression object {oid} is {g}, model {m}"))
+                return fails
+        cur = {n: g[4] for n, g in snp["params"].items()}
+        # ---- components
+        for cid, d in snp["comps"].items():
+            cop = comp_ops[cid]
+            kind, conv = cop["kind"], cop.get("conv")
+            label = x_label(kind, conv)
+            md = msn["comps"].get(cid)
+            if md is None:
+                fails.append(("broken", "xsess-model-vs-code:component", f"{when}: component {cid} unknown to the model"))
+                return fails
+            vals, scales, all_float, illcond = {}, {}, True, False
+            for (slot, lo, hi), got, want in zip(SLOTS[kind], d["reads"], md["reads"]):
+                a = xslot_ref(cop, slot)
+                live_ast = asts[a["ex"]] if ("ex" in a and not overridden.get(a["ex"])) else None
+                scale = 0.0
+                if live_ast is not None:
+                    # DIRECT ORACLE: the slot reads the expression at the current values of the raw parameters
+                    v, scale, well, why = xeval_info(live_ast, cur)
+                    if why == "undef":
+                        if isinstance(got, float):
+                            fails.append(("violation", "expr-stale-value",
+                                          f"{when}: slot {slot} of {cid} reads {got!r} although a sub-parameter of "
+                                          f"{xast_text(live_ast)} has no value"))
+                            return fails
+                    elif well and v is not None:
+                        if not isinstance(got, float):
+                            fails.append(("violation", "expr-not-evaluated",
+                                          f"{when}: slot {slot} of {cid} bound to {xast_text(live_ast)} gives {got}; at the "
+                                          f"current values {cur} it is {v!r}"))
+                            return fails
+                        if abs(got - v) > 1e-9 * (1 + abs(v) + scale):
+                            fails.append(("violation", "expr-live-value",
+                                          f"{when}: slot {slot} of {cid} bound to {xast_text(live_ast)} evaluates to {got!r}; "
+                                          f"at the current values {cur} it is {v!r}"))
+                            return fails
+                    elif not well:
+                        illcond = True
+                        all_float = all_float and isinstance(got, float)
+                        vals[slot] = got
+                        scales[slot] = scale
+                        continue        # ill-conditioned: neither the oracle nor the model is compared
+                # MODEL vs code
+                if isinstance(want, dict):
+                    cls = want["e"]
+                    if isinstance(got, float):
+                        if cls == "TypeError" and live_ast is not None:
+                            illcond = True      # sympy simplified a division / root away: more defined than the model, not compared
+                        else:
+                            fails.append(("broken", "xsess-model-vs-code:read",
+                                          f"{when}: slot {slot} of {cid} reads {got!r}, model raises {cls}"))
+                            return fails
+                    elif cls in ("ValueError", "AttributeError") and got != "err:" + cls:
+                        fails.append(("broken", "xsess-model-vs-code:read",
+                                      f"{when}: slot {slot} of {cid} gives {got}, model raises {cls}"))
+                        return fails
+                elif not isinstance(got, float):
+                    fails.append(("broken", "xsess-model-vs-code:read",
+                                  f"{when}: slot {slot} of {cid} gives {got}, model reads {float(Fraction(want))!r}"))
+                    return fails
+                elif not x_num_eq(got, want, scale):
+                    fails.append(("broken", "xsess-model-vs-code:read",
+                                  f"{when}: slot {slot} of {cid} reads {got!r}, model {float(Fraction(want))!r}"))
+                    return fails
+                if not isinstance(got, float):
+                    all_float = False
+                vals[slot] = got
+                scales[slot] = scale
+            if not all_float:
+                if isinstance(d["num"], list):
+                    fails.append(("violation", "expr-stale-value",
+                                  f"{when}: {label} {cid} returns a numeric matrix although its slots read {d['reads']}"))
+                    return fails
+                continue
+            # matrices: DIRECT ORACLE (documented matrix at the values the slots read), then the model
+            doc = doc_matrix(kind, conv, vals)
+            vmax = max([abs(x) for x in vals.values()] + [0.0])
+            smax = max(list(scales.values()) + [0.0])
+            tol = 1e-8 + 2e-15 * max(vmax, smax)
+            for key, which in (("num", "numeric"), ("sym", "symbolic")):
+                got = d[key]
+                if not isinstance(got, list):
+                    fails.append(("violation", f"xsess-matrix-raises:{which}",
+                                  f"{when}: {label} {cid} ({which}) gives {got} although its slots read {vals}"))
+                    return fails
+                if not core.mat_close(got, doc, tol):
+                    fails.append(("violation", f"xsess-matrix:{label}:{which}",
+                                  f"{when}: the {which} matrix of {label} {cid} is not the documented matrix at the "
+                                  f"slot values {vals} (off by {core.mat_maxdiff(got, doc):.3g})"))
+                    return fails
+            if illcond:
+                continue
+            mm = x_model_mat(md.get("sym"))
+            if mm is None:
+                fails.append(("broken", "xsess-model-vs-code:symbolic",
+                              f"{when}: the model cannot evaluate the symbolic matrix of {cid} at the current values"))
+                return fails
+            # (the model wraps a directly bound parameter exactly, the code in doubles: a difference of a few ulp of
+            # the REQUESTED value, amplified by the expression)
+            if not core.mat_close(d["sym"], mm, tol + 1e-12 * max(vmax, smax)):
+                fails.append(("broken", "xsess-model-vs-code:symbolic",
+                              f"{when}: symbolic matrix of {label} {cid} differs from the model by "
+                              f"{core.mat_maxdiff(d['sym'], mm):.3g}"))
+                return fails
+    # ---- last state: the symbolic matrix as a function of its free symbols
+    last_snp = obs["steps"][-1] if obs["steps"] else {"comps": {}, "params": {}}
+    cur = {n: g[4] for n, g in last_snp["params"].items()}
+    for cid, d in obs["final"].items():
+        cop = comp_ops[cid]
+        kind, conv = cop["kind"], cop.get("conv")
+        label = x_label(kind, conv)
+        mf = rep["final"].get(cid)
+        broken_obj = any(overridden.get(a.get("ex")) == "fixed" and last_snp["objs"][a["ex"]][4] is None
+                         for a in (xslot_ref(cop, sl) for sl, _, _ in SLOTS[kind]))
+        if "err" in d or mf is None:
+            if "err" in d and mf is None and broken_obj:
+                continue        # a rejected fix_value left an Expression object without `_symbol` and without value
+            fails.append(("violation" if "err" in d and not broken_obj else "broken", "xsess-symbolic-raises",
+                          f"{label} {cid}: compute_unitary(use_symbolic=True) gives {d.get('err')}, model "
+                          f"{'has a matrix' if mf is not None else 'has none'}"))
+            return fails
+        free = last_snp["comps"][cid].get("free")
+        if free is not None and sorted(mf["free"]) != free:
+            fails.append(("broken", "xsess-model-vs-code:free-symbols",
+                          f"{label} {cid}: the symbolic matrix has the free symbols {free}, model {sorted(mf['free'])}"))
+            return fails
+        for pi_, (pt, got, mrows) in enumerate(zip(case["points"], d["pts"], mf["pts"])):
+            # what each slot evaluates to at the point (direct oracle)
+            vals, ok, smax = {}, True, 0.0
+            for slot, lo, hi in SLOTS[kind]:
+                a = xslot_ref(cop, slot)
+                if "default" in a:
+                    vals[slot] = math.pi / 2
+                elif "num" in a:
+                    vals[slot] = last_snp["comps"][cid]["reads"][[s for s, _, _ in SLOTS[kind]].index(slot)]
+                elif "ref" in a:
+                    vals[slot] = cur[a["ref"]] if cur.get(a["ref"]) is not None else pt[a["ref"]]
+                else:
+                    oid = a["ex"]
+                    ov = last_snp["objs"][oid][4]
+                    if ov is not None:
+                        vals[slot] = ov
+                    elif overridden.get(oid):
+                        ok = False
+                    else:
+                        v, scale, well, why = xeval_info(asts[oid], pt)
+                        smax = max(smax, scale)
+                        if v is None or not well:
+                            ok = False
+                        else:
+                            vals[slot] = v
+            if not ok or not all(isinstance(v, float) for v in vals.values()):
+                continue
+            doc = doc_matrix(kind, conv, vals)
+            tol = 1e-8 + 2e-15 * max([abs(x) for x in vals.values()] + [smax])
+            for key, g in (("pts", got),) + ((("U", d["U"]),) if (pi_ == 0 and "U" in d and d["U"] != "skipped:timeout") else ()):
+                which = "symbolic" if key == "pts" else "U"
+                if not isinstance(g, list):
+                    fails.append(("violation", f"xsess-matrix-raises:{which}",
+                                  f"{label} {cid}: the {which} matrix at the point {pt} gives {g} (slots {vals})"))
+                    return fails
+                if not core.mat_close(g, doc, tol):
+                    fails.append(("violation", f"xsess-matrix:{label}:{which}",
+                                  f"{label} {cid}: the {which} matrix evaluated at {pt} is not the documented matrix at "
+                                  f"the slot values {vals} (off by {core.mat_maxdiff(g, doc):.3g})"))
+                    return fails
+            mm = x_model_mat(mrows)
+            if mm is None or not core.mat_close(got, mm, tol + 1e-12 * max([abs(x) for x in vals.values()] + [smax])):
+                fails.append(("broken", "xsess-model-vs-code:symbolic-point",
+                              f"{label} {cid}: symbolic matrix at {pt} differs from the model "
+                              f"({'model undefined' if mm is None else format(core.mat_maxdiff(got, mm), '.3g')})"))
+                return fails
+    return fails
+
+
+def judge_pbs(case, obs, reps):
+    rep = reps[0]
+    if "err" in rep:
+        return [("broken", "lean-driver", f"pbs request rejected: {rep['err']}")]
+    if "err" in obs:
+        return [("violation", "pbs-raises", f"PBS(): {obs['err']}")]
+    want = [[0, 0, 1, 0], [0, 1, 0, 0], [1, 0, 0, 0], [0, 0, 0, 1]]
+    model = core.unmat(rep["U"])
+    fails = []
+    if not rep["unitary"] or not core.mat_close(model, want):
+        fails.append(("broken", "model-internal", "PBS model is not the documented matrix"))
+    for key in ("num", "sym", "U", "def"):
+        if not core.mat_close(obs[key], model):
+            fails.append(("violation" if not core.mat_close(obs[key], want) else "broken", f"pbs-matrix:{key}",
+                          f"PBS(): {key} matrix differs from the documented one"))
+    if obs["m"] != 2 or not obs["pol"]:
+        fails.append(("violation", "pbs-shape", f"PBS(): m = {obs['m']}, requires_polarization = {obs['pol']}"))
+    return fails
+
+
+# -- generators --------------------------------------------------------------------------------------
+X_CONSTS = ["1", "2", "3", "-1", "1/2", "1/4", "3/2", "5", "-2", "1/10", "1/3"]
+
+
+def xgen_const(rng):
+    r = rng.random()
+    if r < 0.65:
+        return {"c": rng.choice(X_CONSTS)}
+    if r < 0.8:
+        return {"pi": 1}
+    return const_node(round(rng.uniform(-4, 4), rng.choice([1, 2, 3])))
+
+
+def xgen_ast(rng, names, depth, funs=True):
+    """random AST of the full language"""
+    if depth == 0 or rng.random() < 0.15:
+        return {"v": rng.choice(names)}
+    r = rng.random()
+    a = xgen_ast(rng, names, depth - 1, funs)
+    if funs and r < 0.25:
+        f = rng.choice(X_FUNS)
+        if f == "acos" and rng.random() < 0.7:
+            a = {"op": "div", "a": a, "b": {"c": rng.choice(["4", "10", "30"])}}
+        if f == "sqrt" and rng.random() < 0.4:
+            a = {"op": "pow", "a": a, "n": 2}
+        if f == "exp" and rng.random() < 0.7:
+            a = {"op": "div", "a": a, "b": {"c": rng.choice(["4", "10"])}}
+        return {"op": "fn", "f": f, "a": a}
+    if r < 0.33:
+        return a["a"] if a.get("op") == "neg" else {"op": "neg", "a": a}
+    if r < 0.45:
+        return {"op": "pow", "a": a, "n": rng.choice([2, 3, -1, -2, 2, -1])}
+    op = rng.choice(["add", "sub", "mul", "div", "add", "mul"])
+    q = rng.random()
+    if q < 0.4:
+        return {"op": op, "a": a, "b": xgen_const(rng)}
+    if q < 0.55:
+        return {"op": op, "a": xgen_const(rng), "b": a}
+    return {"op": op, "a": a, "b": xgen_ast(rng, names, depth - 1, funs)}
+
+
+def xgen_ops_ast(rng, names, depth):
+    """AST that can be built with the overloaded operators of Parameter (no function, no constant on the left of /)"""
+    if depth == 0 or rng.random() < 0.2:
+        return {"v": rng.choice(names)}
+    op = rng.choice(["add", "sub", "mul", "div", "pow", "neg", "add", "mul"])
+    a = xgen_ops_ast(rng, names, depth - 1)
+    if op == "neg":
+        return a["a"] if a.get("op") == "neg" else {"op": "neg", "a": a}
+    if op == "pow":
+        return {"op": "pow", "a": a, "n": rng.choice([2, 3, -1, -2])}
+    r = rng.random()
+    if r < 0.4:
+        return {"op": op, "a": a, "b": gen_const(rng) if rng.random() < 0.3 else {"c": rng.choice(CONSTS)}}
+    if r < 0.55 and op != "div":
+        return {"op": op, "a": {"c": rng.choice(CONSTS)}, "b": a}
+    return {"op": op, "a": a, "b": xgen_ops_ast(rng, names, depth - 1)}
+
+
+def x_value(rng, slot_range=None):
+    r = rng.random()
+    if slot_range is not None and r < 0.5:
+        lo, hi = slot_range
+        return lo + rng.uniform(-30, 31) * (hi - lo) if rng.random() < 0.6 else rng.uniform(lo, hi)
+    if r < 0.45:
+        return rng.uniform(0.02, 1.0)
+    if r < 0.8:
+        return rng.uniform(-6, 6)
+    if r < 0.9:
+        return float(rng.randint(-4, 4))
+    return rng.uniform(-40, 40)
+
+
+def gen_xsess_case(rng, deep=False):
+    names = ["a", "b", "c"][:rng.randint(1, 3)]
+    ops = [{"k": "new", "x": n, "val": None, "lo": None, "hi": None, "periodic": True} for n in names]
+    used_names = {}
+    objs = []               # ids
+    asts = {}
+    comps = []
+    direct = {}             # raw parameter -> range class of the slots it is plugged in directly
+
+    def add_obj(how_ast):
+        how, ast, extra = how_ast
+        nm = xsympy_name(ast)
+        if nm is None or nm in used_names or xast_depth(ast) > 7:
+            return None
+        if how == "ops" and any(xast_vars(n) and xsympy_name(n) is None for n in xast_subnodes(ast)):
+            return None         # (an intermediate Expression object would lose a symbol: refused by the constructor)
+        oid = f"e{len(objs)}"
+        used_names[nm] = oid
+        objs.append(oid)
+        asts[oid] = ast
+        d = {"k": "xnew", "id": oid, "how": how, "ast": ast}
+        d.update(extra)
+        ops.append(d)
+        return oid
+
+    def new_obj():
+        for _ in range(20):
+            r = rng.random()
+            if objs and r < 0.3:           # an Expression of Expressions
+                l = ("obj", rng.choice(objs))
+                op = rng.choice(["add", "sub", "mul", "div", "neg", "pow", "add", "mul"])
+                la = asts[l[1]]
+                if op == "neg":
+                    if la.get("op") == "neg":
+                        continue        # (`-(-e)` is the object e itself, not a new Expression)
+                    how = ("compose", {"op": "neg", "a": la}, {"compose": {"op": "neg", "l": l}})
+                elif op == "pow":
+                    n = rng.choice([2, -1, 3, -2])
+                    how = ("compose", {"op": "pow", "a": la, "n": n}, {"compose": {"op": "pow", "l": l, "n": n}})
+                else:
+                    q = rng.random()
+                    if q < 0.4:
+                        rr = ("obj", rng.choice(objs))
+                        ra = asts[rr[1]]
+                    elif q < 0.7:
+                        nm = rng.choice(names)
+                        rr, ra = ("par", nm), {"v": nm}
+                    else:
+                        cn = {"c": rng.choice(CONSTS)}
+                        rr, ra = ("num", cn), cn
+                    if rng.random() < 0.3 and rr[0] != "num" and op != "div":
+                        l, rr, la, ra = rr, l, ra, la
+                    how = ("compose", {"op": op, "a": la, "b": ra}, {"compose": {"op": op, "l": l, "r": rr}})
+            elif r < 0.55:
+                how = ("ops", xgen_ops_ast(rng, names, rng.randint(1, 3)), {})
+                if "v" in how[1]:
+                    continue
+            elif r < 0.6:
+                nm = rng.choice(names)
+                how = ("rtheta", {"op": "mul", "a": {"c": "2"}, "b": {"op": "fn", "f": "acos", "a": {
+                    "op": "fn", "f": "sqrt", "a": {"v": nm}}}}, {"r": nm})
+            else:
+                how = ("text", xgen_ast(rng, names, rng.randint(1, 3)), {})
+                if "v" in how[1]:
+                    continue
+            oid = add_obj(how)
+            if oid:
+                return oid
+        return None
+
+    for _ in range(rng.randint(1, 3)):
+        new_obj()
+    n_steps = rng.randint(5, 11)
+    for step in range(n_steps):
+        r = rng.random()
+        if (r < 0.22 or (step == 0)) and len(comps) < 3:
+            kind, conv = rng.choice(X_KINDS)
+            cid = f"c{len(comps)}"
+            args = {}
+            for slot, lo, hi in SLOTS[kind]:
+                q = rng.random()
+                cand = [n for n in names if direct.get(n, RANGE_CLASS[slot]) == RANGE_CLASS[slot]]
+                if q < 0.45 and objs:
+                    args[slot] = {"ex": rng.choice(objs)}
+                elif q < 0.6 and cand:
+                    nm = rng.choice(cand)
+                    direct[nm] = RANGE_CLASS[slot]
+                    args[slot] = {"ref": nm}
+                elif q < 0.9 or kind != "BS":
+                    args[slot] = {"num": lo + rng.uniform(-2, 3) * (hi - lo)}
+                # else: a BS slot left to its default (theta = sp.pi/2, phases 0)
+            ops.append({"k": "mk", "c": cid, "kind": kind, "conv": conv, "args": args,
+                        "how": rng.choice(["ctor", "static"]) if kind == "BS" else "ctor"})
+            comps.append(cid)
+        elif r < 0.62:
+            nm = rng.choice(names)
+            rngc = INTERVALS[direct[nm]] if nm in direct else None
+            ops.append({"k": "set", "x": nm, "v": x_value(rng, rngc)})
+        elif r < 0.67:
+            ops.append({"k": "reset", "x": rng.choice(names)})
+        elif r < 0.70:
+            nm = rng.choice(names)
+            rngc = INTERVALS[direct[nm]] if nm in direct else None
+            ops.append({"k": "fix", "x": nm, "v": x_value(rng, rngc)})
+        elif r < 0.80 and objs:
+            oid = rng.choice(objs)
+            holders = [o["c"] for o in ops if o["k"] == "mk" and any(a.get("ex") == oid for a in o["args"].values())]
+            d = {"k": "xset", "id": oid, "v": rng.choice([rng.uniform(-30, 30), rng.uniform(0, 3)])}
+            if holders and rng.random() < 0.4:
+                d["via"] = rng.choice(holders)
+            ops.append(d)
+        elif r < 0.87 and objs:
+            ops.append({"k": "xreset", "id": rng.choice(objs)})
+        elif r < 0.95:
+            new_obj()
+        else:
+            nm = rng.choice(names)
+            ops.append({"k": "set", "x": nm, "v": x_value(rng)})
+    if not comps:
+        ops.append({"k": "mk", "c": "c0", "kind": "PS", "conv": None,
+                    "args": {"phi": {"ex": objs[0]} if objs else {"ref": names[0]}}})
+    points = []
+    for _ in range(2):
+        points.append({n: (rng.uniform(0.02, 1.0) if rng.random() < 0.5 else rng.uniform(-25, 25)) for n in names})
+    # `.U` (sympy `simplify`) only on tame expressions
+    tame = all(xast_depth(a) <= 2 and not any(abs(n.get("n", 1)) > 2 for n in xast_subnodes(a)) for a in asts.values())
+    return {"ops": ops, "points": points, "deep": bool(deep and tame)}
+
+
+def xsess_sweep_cases():
+    """deterministic: the symbolic branch of every leaf kind with every kind of slot content — all slots of one
+    content class, and each slot in turn of that class with numbers elsewhere; plus one history per behaviour of
+    Expression objects (independent of the seed)"""
+    out = []
+    new = lambda x, val=None: {"k": "new", "x": x, "val": val, "lo": None, "hi": None, "periodic": True}  # noqa: E731
+    classes = ["num", "free", "valued", "fixed", "expr-free", "expr-valued", "expr-override", "default"]
+    fn_pool = [lambda v: {"op": "mul", "a": {"c": "2"}, "b": v},
+               lambda v: {"op": "add", "a": {"op": "fn", "f": "sin", "a": v}, "b": {"c": "1/2"}},
+               lambda v: {"op": "div", "a": {"pi": 1}, "b": {"op": "add", "a": {"op": "pow", "a": v, "n": 2}, "b": {"c": "1"}}},
+               lambda v: {"op": "fn", "f": "sqrt", "a": {"op": "add", "a": {"op": "pow", "a": v, "n": 2}, "b": {"c": "1/4"}}},
+               lambda v: {"op": "sub", "a": {"op": "fn", "f": "exp", "a": {"op": "div", "a": v, "b": {"c": "4"}}}, "b": v}]
+    vals = [0.3, 1.9, -2.4, 4.4, 0.75]
+    k = 0
+    for kind, conv in X_KINDS:
+        slots = SLOTS[kind]
+        layouts = []
+        for cl in classes:
+            layouts.append({s: cl for s, _, _ in slots})
+            if len(slots) > 1:
+                for s0, _, _ in slots:
+                    layouts.append({s: (cl if s == s0 else "num") for s, _, _ in slots})
+        for lay in layouts:
+            ops, args, after = [], {}, []
+            for j, (slot, lo, hi) in enumerate(slots):
+                cl = lay[slot]
+                nm = f"p{j}"
+                v = vals[(j + k) % len(vals)]
+                if cl == "default":
+                    if slot == "theta" or (kind == "BS"):
+                        continue                    # BS() default: theta = sp.pi/2 (sympy), phases 0
+                    cl = "num"
+                if cl == "num":
+                    args[slot] = {"num": lo + (0.37 + 0.11 * j + 3 * ((j + k) % 3 - 1)) * (hi - lo)}
+                elif cl in ("free", "valued"):
+                    ops.append(new(nm))
+                    args[slot] = {"ref": nm}
+                    if cl == "valued":
+                        after.append({"k": "set", "x": nm, "v": lo + (0.6 + 7 * ((j + k) % 2)) * (hi - lo)})
+                elif cl == "fixed":
+                    ops.append(new(nm, lo + 0.45 * (hi - lo)))
+                    args[slot] = {"ref": nm}
+                else:
+                    ops.append(new(nm))
+                    ast = fn_pool[(j + k) % len(fn_pool)]({"v": nm})
+                    ops.append({"k": "xnew", "id": f"e{j}", "how": "text", "ast": ast})
+                    args[slot] = {"ex": f"e{j}"}
+                    if cl == "expr-valued":
+                        after.append({"k": "set", "x": nm, "v": v})
+                    elif cl == "expr-override":
+                        after.append({"k": "set", "x": nm, "v": v})
+                        after.append({"k": "xset", "id": f"e{j}", "v": 11.5 + j})
+            ops.append({"k": "mk", "c": "c0", "kind": kind, "conv": conv, "args": args, "how": "ctor"})
+            ops += after
+            names = [o["x"] for o in ops if o["k"] == "new"]
+            pts = [{n: 0.2 + 0.17 * i for i, n in enumerate(names)}, {n: -7.3 + 5.1 * i for i, n in enumerate(names)}]
+            out.append({"ops": ops, "points": pts, "deep": k % 3 == 0, "tag": "sym-sweep"})
+            k += 1
+    # behaviours of Expression objects
+    st = lambda x, v: {"k": "set", "x": x, "v": v}  # noqa: E731
+    xn = lambda i, how, ast, **kw: dict({"k": "xnew", "id": i, "how": how, "ast": ast}, **kw)  # noqa: E731
+    va, vb = {"v": "a"}, {"v": "b"}
+    two_a = {"op": "mul", "a": {"c": "2"}, "b": va}
+    two_a_r = {"op": "mul", "a": va, "b": {"c": "2"}}
+    mkc = lambda c, kind, args, conv=None: {"k": "mk", "c": c, "kind": kind, "conv": conv, "args": args}  # noqa: E731
+    pts = [{"a": 0.4, "b": 0.7}, {"a": -9.0, "b": 13.0}]
+    # one Expression object in three components of different ranges; override wraps on the first range only
+    out.append({"ops": [new("a"), xn("e0", "ops", {"op": "mul", "a": {"c": "3"}, "b": va}),
+                        mkc("c0", "PS", {"phi": {"ex": "e0"}}), mkc("c1", "BS", {"theta": {"ex": "e0"}}, "Rx"),
+                        mkc("c2", "PR", {"delta": {"ex": "e0"}}), st("a", 5.0), st("a", -1.25),
+                        {"k": "xset", "id": "e0", "v": 15.0}, {"k": "xset", "id": "e0", "v": 2.0}, st("a", 0.5),
+                        {"k": "xreset", "id": "e0"}, st("a", 0.25)], "points": pts[:1], "tag": "xexpr-sweep"})
+    # override on a single periodic slot (wrapped), through assign, sub-parameter reset while overridden
+    out.append({"ops": [new("a"), new("b"), xn("e0", "ops", {"op": "add", "a": two_a_r, "b": vb}),
+                        mkc("c0", "BS", {"theta": {"ex": "e0"}, "phi_tl": {"ref": "b"}}, "H"), st("a", 1.0), st("b", 0.5),
+                        {"k": "xset", "id": "e0", "v": 100.0}, st("a", 3.0),
+                        {"k": "xset", "id": "e0", "v": -7.0, "via": "c0"}, {"k": "reset", "x": "b"}, st("b", 0.1),
+                        {"k": "xreset", "id": "e0"}], "points": pts, "tag": "xexpr-sweep"})
+    # Expressions of Expressions built AFTER an operand was overridden; -(-e) is e
+    out.append({"ops": [new("a"), new("b"), xn("e0", "ops", two_a_r), st("a", 1.5), st("b", 0.25),
+                        mkc("c0", "PS", {"phi": {"ex": "e0"}}), {"k": "xset", "id": "e0", "v": 4.0},
+                        xn("e1", "compose", {"op": "add", "a": two_a_r, "b": vb}, compose={"op": "add", "l": ("obj", "e0"), "r": ("par", "b")}),
+                        xn("e2", "compose", {"op": "mul", "a": two_a_r, "b": {"op": "add", "a": two_a_r, "b": vb}},
+                           compose={"op": "mul", "l": ("obj", "e0"), "r": ("obj", "e1")}),
+                        xn("e3", "compose", {"op": "neg", "a": two_a_r}, compose={"op": "neg", "l": ("obj", "e0")}),
+                        xn("e4", "compose", {"op": "pow", "a": {"op": "add", "a": two_a_r, "b": vb}, "n": -2},
+                           compose={"op": "pow", "l": ("obj", "e1"), "n": -2}),
+                        mkc("c1", "BS", {"theta": {"ex": "e1"}, "phi_tr": {"ex": "e2"}, "phi_bl": {"ex": "e3"}, "phi_br": {"ex": "e4"}}, "Ry"),
+                        st("a", -0.75), st("b", 2.0)], "points": pts, "tag": "xexpr-sweep"})
+    # functions, pi, negative powers from text; not-a-real-number values; undefined sub-parameters
+    out.append({"ops": [new("a"), new("b"),
+                        xn("e0", "text", {"op": "add", "a": {"op": "fn", "f": "sin", "a": va}, "b": {
+                            "op": "mul", "a": {"op": "fn", "f": "sqrt", "a": va}, "b": {"pi": 1}}}),
+                        xn("e1", "text", {"op": "add", "a": {"op": "pow", "a": vb, "n": -2}, "b": {"op": "fn", "f": "cos", "a": {
+                            "op": "div", "a": va, "b": {"c": "2"}}}}),
+                        xn("e2", "text", {"op": "fn", "f": "acos", "a": {"op": "div", "a": va, "b": {"c": "4"}}}),
+                        xn("e3", "text", {"op": "fn", "f": "exp", "a": {"op": "neg", "a": {"op": "pow", "a": vb, "n": 2}}}),
+                        mkc("c0", "WP", {"delta": {"ex": "e0"}, "xsi": {"ex": "e1"}}),
+                        mkc("c1", "BS", {"theta": {"ex": "e2"}, "phi_tl": {"ex": "e3"}}, "Rx"),
+                        st("a", 2.0), st("b", 0.5), st("a", -1.0), st("b", 0.0), st("a", 9.0), st("a", 0.81), st("b", -1.5),
+                        {"k": "reset", "x": "a"}, st("a", 3.5)], "points": pts, "tag": "xexpr-sweep"})
+    # BS.r_to_theta: reflectivity -> theta
+    out.append({"ops": [new("r"), xn("e0", "rtheta", {"op": "mul", "a": {"c": "2"}, "b": {"op": "fn", "f": "acos", "a": {
+        "op": "fn", "f": "sqrt", "a": {"v": "r"}}}}, r="r"), mkc("c0", "BS", {"theta": {"ex": "e0"}}, "Rx"),
+        mkc("c1", "BS", {"theta": {"ex": "e0"}, "phi_tr": {"num": 0.3}}, "H"), st("r", 0.3), st("r", 0.85), st("r", 1.0),
+        st("r", 0.0), st("r", 1.7)], "points": [{"r": 0.45}, {"r": 0.0625}], "tag": "xexpr-sweep"})
+    # fix_value on an Expression object: accepted (constant for ever) and rejected (no `_symbol` left)
+    out.append({"ops": [new("a"), xn("e0", "ops", two_a_r), xn("e1", "ops", {"op": "add", "a": va, "b": {"c": "1"}}),
+                        mkc("c0", "PS", {"phi": {"ex": "e0"}}), mkc("c1", "PS", {"phi": {"ex": "e1"}}),
+                        mkc("c2", "BS", {"theta": {"ex": "e1"}}, "Rx"), st("a", 0.5),
+                        {"k": "xfix", "id": "e0", "v": 9.0}, {"k": "xfix", "id": "e1", "v": 50.0}, st("a", 1.0),
+                        {"k": "xreset", "id": "e0"}, {"k": "xset", "id": "e0", "v": 1.0}], "points": [], "tag": "xexpr-sweep"})
+    # a raw parameter directly in a slot and inside an Expression of the same component; values far outside
+    out.append({"ops": [new("a"), new("b"), xn("e0", "text", {"op": "sub", "a": {"op": "div", "a": two_a, "b": {"c": "3"}}, "b": {
+        "op": "div", "a": vb, "b": {"pi": 1}}}), mkc("c0", "BS", {"theta": {"ref": "a"}, "phi_tl": {"ex": "e0"}, "phi_br": {"ref": "b"}}, "Ry"),
+        st("a", 100.0), st("b", -50.0), st("a", 2.0), {"k": "fix", "x": "b", "v": 1.0}, st("a", -3.0)],
+        "points": pts, "tag": "xexpr-sweep"})
+    return out
+
+
+# ------------------------------------------------------------------------------------------------
 # one case end-to-end (used by replay, corpus, shrinking)
 # ------------------------------------------------------------------------------------------------
 def lean_reqs(stream, case, obs):
@@ -1696,6 +2749,10 @@ def lean_reqs(stream, case, obs):
         return [{"op": "perm", "l": case["l"]}], None
     if stream == "life":
         return [life_lean_req(case)], None
+    if stream == "pbs":
+        return [{"op": "pbs"}], None
+    if stream == "xsess":
+        return [], None         # (asked in rounds: `xsess_ask`)
     if obs.get("degenerate") or "err" in obs:
         return [{"op": "perm", "l": [0]}], []
     return expr_lean_reqs(case, obs)
@@ -1712,11 +2769,17 @@ def judge(stream, case, obs, reps, index=None):
         return judge_perm(case, obs, reps)
     if stream == "life":
         return judge_life(case, obs, reps)
+    if stream == "xsess":
+        return judge_xsess(case, obs, reps)
+    if stream == "pbs":
+        return judge_pbs(case, obs, reps)
     return judge_expr(case, obs, reps, index)
 
 
 def run_one(chk, stream, case):
     obs = observe((stream, case))
+    if stream == "xsess":
+        return judge(stream, case, obs, xsess_ask(chk.lean, [case]))
     reqs, index = lean_reqs(stream, case, obs)
     reps = chk.lean.ask_many(reqs)
     return judge(stream, case, obs, reps, index)
@@ -1774,6 +2837,37 @@ def shrink_candidates(stream, case):
                         c = copy.deepcopy(case)
                         c["ops"][i]["args"][slot] = {"num": 0.25}
                         yield c
+    elif stream == "xsess":
+        ops = case["ops"]
+        for i in range(len(ops) - 1, -1, -1):
+            op = ops[i]
+            later = ops[i + 1:]
+            if op["k"] == "new" and any(xsess_op_uses(o, "par", op["x"]) for o in later):
+                continue
+            if op["k"] == "xnew" and any(xsess_op_uses(o, "obj", op["id"]) for o in later):
+                continue
+            if op["k"] == "mk" and (any(o.get("via") == op["c"] for o in later) or
+                                     sum(1 for o in ops if o["k"] == "mk") == 1):
+                continue
+            c = dict(case)
+            c["ops"] = ops[:i] + ops[i + 1:]
+            yield c
+        for i, op in enumerate(ops):
+            if op["k"] == "mk":
+                for slot in list(op["args"]):
+                    if "num" not in op["args"][slot]:
+                        c = copy.deepcopy(case)
+                        lo, hi = slot_bounds(op["kind"], slot)
+                        c["ops"][i]["args"][slot] = {"num": lo + 0.25 * (hi - lo)}
+                        yield c
+        if case["points"]:
+            c = copy.deepcopy(case)
+            c["points"] = c["points"][:-1]
+            yield c
+        if case.get("deep"):
+            c = copy.deepcopy(case)
+            c["deep"] = False
+            yield c
     elif stream == "expr":
         for i in range(len(case["hist"])):
             c = copy.deepcopy(case)
@@ -1795,6 +2889,24 @@ def shrink_candidates(stream, case):
                         c = copy.deepcopy(case)
                         c["comps"][ci]["slots"][s] = ast[sub]
                         yield c
+
+
+def xsess_op_uses(op, what, name):
+    if what == "par":
+        if op.get("x") == name or op.get("r") == name:
+            return True
+        if op["k"] == "xnew":
+            return name in xast_vars(op["ast"])
+        if op["k"] == "mk":
+            return any(a.get("ref") == name for a in op["args"].values())
+        return False
+    if op.get("id") == name and op["k"] != "xnew":
+        return True
+    if op["k"] == "xnew" and op.get("compose"):
+        return any(tuple(op["compose"].get(side, ())) == ("obj", name) for side in ("l", "r"))
+    if op["k"] == "mk":
+        return any(a.get("ex") == name for a in op["args"].values())
+    return False
 
 
 def life_op_uses(op, name):
@@ -1893,6 +3005,11 @@ def record_case(chk, stream, case, obs):
             chk.branch("perm-rejected")
         chk.case(("P", tuple(case["l"])), case["l"] != list(range(n)),
                  _sample(chk, stream, {"stream": "perm", "l": case["l"]}) if n >= 4 else None)
+    elif stream == "pbs":
+        chk.branch("sym:PBS")
+        chk.case(("PBS",), True, None)
+    elif stream == "xsess":
+        record_xsess(chk, case, obs)
     elif stream == "life":
         ops = case["ops"]
         chk.count("life_history_len", len(ops))
@@ -1981,6 +3098,108 @@ def record_case(chk, stream, case, obs):
                                        "calls": len(case["hist"])}))
 
 
+def record_xsess(chk, case, obs):
+    ops = case["ops"]
+    chk.count("xsess_history_len", len(ops))
+    asts = {o["id"]: o["ast"] for o in ops if o["k"] == "xnew"}
+    state = {}          # Expression object -> "set" | "fixed"
+    holders = {}
+    for i, (o, res) in enumerate(zip(ops, obs.get("out", []))):
+        k = o["k"]
+        chk.count("xsess_op", k)
+        snp = obs["steps"][i]
+        if k == "xnew":
+            chk.count("xexpr_built", o["how"])
+            chk.branch("xexpr-" + ("compose" if o["how"] == "compose" else o["how"]))
+            for f in xast_feats(o["ast"]):
+                if f.startswith("fn:") or f in ("pi", "negpow"):
+                    chk.branch("xexpr-" + f)
+            if o["how"] == "compose" and any(
+                    tuple(o["compose"].get(sd, ())) [:1] == ("obj",) and state.get(o["compose"][sd][1]) == "set"
+                    for sd in ("l", "r")):
+                chk.branch("xexpr-compose-after-override")
+            if xast_depth(o["ast"]) >= 3:
+                chk.branch("xexpr-deep")
+        elif k == "xset":
+            if res is None and state.get(o["id"]) != "fixed":
+                state[o["id"]] = "set"
+                chk.branch("xexpr-override")
+                if o.get("via"):
+                    chk.branch("xexpr-override-via-assign")
+                g = snp["objs"][o["id"]]
+                if g[4] is not None and abs(g[4] - o["v"]) > 1e-9:
+                    chk.branch("xexpr-override-wrapped")
+            elif res is not None:
+                chk.branch("xexpr-override-rejected")
+        elif k == "xfix":
+            state[o["id"]] = "fixed"
+            chk.branch("xexpr-fix")
+        elif k == "xreset":
+            if state.get(o["id"]) == "set":
+                state.pop(o["id"])
+                chk.branch("xexpr-reset-restores")
+        elif k == "mk" and res is None:
+            label = x_label(o["kind"], o.get("conv"))
+            chk.count("xsess_component", label)
+            for slot, _, _ in SLOTS[o["kind"]]:
+                a = xslot_ref(o, slot)
+                if "ex" in a:
+                    holders.setdefault(a["ex"], []).append((o["c"], slot))
+                    cls = "expr-override" if state.get(a["ex"]) else "expr"
+                elif "ref" in a:
+                    cls = "ref"
+                elif "default" in a:
+                    cls = "default-sympy"
+                else:
+                    cls = "num"
+                chk.count("xsess_slot", cls)
+        # what the slots look like at this step, per component kind (the symbolic branch is evaluated at every step)
+        for cid, d in snp["comps"].items():
+            cop = next(x for x in ops if x["k"] == "mk" and x["c"] == cid)
+            label = x_label(cop["kind"], cop.get("conv"))
+            if isinstance(d.get("sym"), list):
+                chk.branch("sym:" + label)
+            for (slot, _, _), got in zip(SLOTS[cop["kind"]], d["reads"]):
+                a = xslot_ref(cop, slot)
+                if "ex" in a:
+                    st_ = state.get(a["ex"])
+                    cur = {n: g[4] for n, g in snp["params"].items()}
+                    if st_ == "set":
+                        cls = "expr-override"
+                    elif st_ == "fixed":
+                        cls = "expr-fixed"
+                    elif any(cur.get(n) is None for n in xast_vars(asts[a["ex"]])):
+                        cls = "expr-free"
+                        chk.branch("xexpr-undefined")
+                    else:
+                        cls = "expr-valued"
+                        if isinstance(got, str) and got != "err:ValueError":
+                            chk.branch("xexpr-notreal")
+                elif "ref" in a:
+                    g = snp["params"][a["ref"]]
+                    cls = "fixed" if not g[3] else ("valued" if g[4] is not None else "free")
+                elif "default" in a:
+                    cls = "default"
+                else:
+                    cls = "num"
+                chk.branch(f"symslot:{cop['kind']}:{cls}")
+    if any(len(v) > 1 for v in holders.values()):
+        chk.branch("xexpr-shared-object")
+    if any(len({c for c, _ in v}) > 1 for v in holders.values()):
+        chk.branch("xexpr-shared-across-components")
+    if case.get("tag"):
+        chk.branch(case["tag"])
+    for cid, d in obs.get("final", {}).items():
+        if d.get("pts") and isinstance(d["pts"][0], list):
+            chk.branch("sym-at-point")
+        if isinstance(d.get("U"), list):
+            chk.branch("sym-U")
+    nontrivial = any(o["k"] == "xnew" for o in ops) and sum(1 for o in ops if o["k"] in ("set", "xset", "fix")) >= 2
+    chk.case(("X", json.dumps(ops, sort_keys=True)), nontrivial,
+             _sample(chk, "xsess", {"stream": "xsess", "expressions": [xast_text(a) for a in asts.values()][:3],
+                                    "ops": [o["k"] for o in ops][:14]}))
+
+
 def process(chk, pool, stream, cases, seen_sigs):
     """observe (in parallel), ask the model (batched), judge, shrink and report"""
     if not cases:
@@ -1997,9 +3216,10 @@ def process(chk, pool, stream, cases, seen_sigs):
         reqs_all.extend(reqs)
         indexes.append(index)
     reps_all = chk.lean.ask_many(reqs_all)
-    for case, obs, (a, b), index in zip(cases, obs_all, spans, indexes):
+    xreps = xsess_ask(chk.lean, cases) if stream == "xsess" else None
+    for ci, (case, obs, (a, b), index) in enumerate(zip(cases, obs_all, spans, indexes)):
         record_case(chk, stream, case, obs)
-        fails = judge(stream, case, obs, reps_all[a:b], index)
+        fails = judge(stream, case, obs, [xreps[ci]] if xreps is not None else reps_all[a:b], index)
         for kind, sig, what in fails:
             chk.count("failures", sig)
             if sig in seen_sigs:
@@ -2053,7 +3273,18 @@ def setup(chk):
                                  "life-force", "life-fix", "life-reset", "life-copy", "life-assign",
                                  "life-assign-partial", "life-stale-value", "life-getvars-default-hidden"] + [
                                  "life-raises:" + e for e in ("ValueError", "RuntimeError", "TypeError",
-                                                              "ZeroDivisionError", "KeyError")]
+                                                              "ZeroDivisionError", "KeyError")] + [
+                                 "sym:" + x_label(k, c) for k, c in X_KINDS] + ["sym:PBS", "sym-at-point", "sym-U",
+                                                                                  "sym-sweep", "xexpr-sweep"] + [
+                                 f"symslot:{k}:{cl}" for k in ("BS", "PS", "WP", "HWP", "QWP", "PR")
+                                 for cl in ("num", "free", "valued", "fixed", "expr-free", "expr-valued",
+                                            "expr-override")] + ["symslot:BS:default"] + [
+                                 "xexpr-fn:" + f for f in X_FUNS] + [
+                                 "xexpr-pi", "xexpr-negpow", "xexpr-text", "xexpr-ops", "xexpr-compose", "xexpr-rtheta",
+                                 "xexpr-compose-after-override", "xexpr-deep", "xexpr-override",
+                                 "xexpr-override-via-assign", "xexpr-override-wrapped", "xexpr-fix",
+                                 "xexpr-reset-restores", "xexpr-undefined", "xexpr-notreal", "xexpr-shared-object",
+                                 "xexpr-shared-across-components"]
 
 
 def run(chk: core.Check):
@@ -2098,6 +3329,10 @@ def run(chk: core.Check):
         # parameter lifecycle and shared parameters: deterministic histories, then random ones
         process(chk, pool, "life", life_sweep_cases(), seen)
         process(chk, pool, "life", [gen_life_case(rng) for _ in range(chk.pick(300, 5000))], seen)
+        # Expression objects and the symbolic branch of every leaf: deterministic sweep, then random histories
+        process(chk, pool, "pbs", [{}], seen)
+        process(chk, pool, "xsess", xsess_sweep_cases(), seen)
+        process(chk, pool, "xsess", [gen_xsess_case(rng, deep=(i % 6 == 0)) for i in range(chk.pick(200, 3000))], seen)
     chk.exhaustive = False
     chk.extra["exhaustive_parts"] = ["every bound + k*span, |k| <= 100, of the three declared intervals",
                                      "every permutation of <= 5 modes",
